@@ -294,14 +294,12 @@ Proof.
   - (* PIdle: next call of the script *)
     destruct (script s) as [|[x|] sc]; [discriminate| |]; inversion Hstep; subst; clear Hstep; cbn [apc tpc].
     + destruct HI as [H1 H2 H3 H4 H5 H6 H7 H8 H9 H10 H11 H12].
-      constructor; cbn [in_crit flock flushed nextseq fetchers items out drained bt added] in *; try assumption.
-      * exact I.
-      * destruct (tpc s); exact H5.
-      * unfold b_add; cbn [batch]. rewrite app_assoc. now f_equal.
+      constructor; cbn [in_crit flock flushed nextseq fetchers items out drained bt added] in *; try assumption;
+        try exact I; try (destruct (tpc s); assumption).
+      unfold b_add; cbn [batch]. rewrite app_assoc. now f_equal.
     + destruct HI as [H1 H2 H3 H4 H5 H6 H7 H8 H9 H10 H11 H12].
-      constructor; cbn [in_crit flock flushed nextseq fetchers items out drained bt added] in *; try assumption.
-      * exact I.
-      * destruct (tpc s); exact H5.
+      constructor; cbn [in_crit flock flushed nextseq fetchers items out drained bt added] in *; try assumption;
+        try exact I; try (destruct (tpc s); assumption).
   - (* PAdded *)
     inversion Hstep; subst; clear Hstep. cbn [set_apc apc tpc].
     apply InvC_set_apc. apply (InvC_idle_a PAdded); [reflexivity| |assumption].
@@ -362,9 +360,8 @@ Proof.
   cbn [apc tpc]. destruct HI as [H1 H2 H3 H4 H5 H6 H7 H8 H9 H10 H11 H12].
   assert (Hin : In (mkF seq ev Fetching) (fetchers s)) by (eapply nth_error_In; eassumption).
   destruct (H6 _ Hin) as [Hnth Hlt]. cbn [f_seq f_ev] in Hnth, Hlt.
-  constructor; cbn [flock flushed nextseq fetchers items out drained bt added]; try assumption.
-  - destruct (apc s); exact H4.
-  - destruct (tpc s); exact H5.
+  constructor; cbn [flock flushed nextseq fetchers items out drained bt added]; try assumption;
+    try (destruct (apc s); assumption); try (destruct (tpc s); assumption).
   - intros f Hf. apply in_set_nth in Hf. destruct Hf as [Hf|Hf]; [subst f; cbn [f_seq f_ev]; now split|now apply H6].
   - intros k r Hl. rewrite lookup_put in Hl. destruct (Nat.eqb k seq) eqn:E.
     + apply Nat.eqb_eq in E. subst k. inversion Hl; subst. split; [assumption|]. exists ev. now split.
@@ -386,9 +383,8 @@ Proof.
   destruct HI as [H1 H2 H3 H4 H5 H6 H7 H8 H9 H10 H11 H12].
   destruct (drain_loop_inv (flushed s) (nextseq s) _ _ _ _ _ _ _ _ _ (Nat.lt_succ_diag_r _) H7 H10 H8 Ed)
     as (D1 & D2 & D3 & D4 & D5 & D6).
-  constructor; cbn [flock flushed nextseq fetchers items out drained bt added]; try assumption.
-  - destruct (apc s); exact H4.
-  - destruct (tpc s); exact H5.
+  constructor; cbn [flock flushed nextseq fetchers items out drained bt added]; try assumption;
+    try (destruct (apc s); assumption); try (destruct (tpc s); assumption).
   - intros f Hf. apply in_del_nth in Hf. now apply H6.
   - intros k r Hl. apply D5 in Hl. now apply H7.
   - intros k Hk. rewrite (D4 k) by lia. destruct (H11 k) as [[f [Hf1 [Hf2 Hf3]]]|Hl]; [lia| |now right].
@@ -455,3 +451,62 @@ Proof.
 Qed.
 
 End ReorderProofs.
+
+(* ------------------------------------------------------------------ per-item fetches, and the code before the repair *)
+
+Section Itemwise.
+Context {T R : Type}.
+Variable f : T -> R.
+Variable p : rparams.
+Hypothesis Hfixed : rp_fixed p = true.
+
+Lemma concat_map_map : forall (l : list (list T)), concat (map (map f) l) = map f (concat l).
+Proof. intros l. induction l as [|x l IH]; cbn; [reflexivity|]. now rewrite map_app, IH. Qed.
+
+(* one result per input, in input order *)
+Theorem reorder_itemwise_proof : forall (sc : list (aop T)) (acts : list action),
+  let s := run (map f) p acts (r_init sc) in
+  prefix (out s) (map f (added s)) /\
+  (quiescent s = true -> batch (bt s) = [] -> out s = map f (added s)).
+Proof.
+  intros sc acts s.
+  destruct (reorder_in_order_proof (map f) p Hfixed sc acts) as [Hcat [Hpre Hq]]. fold s in Hcat, Hpre, Hq.
+  rewrite concat_map_map in Hpre, Hq. split.
+  - destruct Hpre as [c Hc]. exists (c ++ map f (batch (bt s))).
+    rewrite <- Hcat, map_app, Hc, <- app_assoc. reflexivity.
+  - intros H1 H2. rewrite (Hq H1), <- Hcat, H2, app_nil_r. reflexivity.
+Qed.
+End Itemwise.
+
+Lemma prefix_is_prefix_of : forall (a b : list N), prefix a b -> is_prefix_of N.eqb a b = true.
+Proof.
+  intros a. induction a as [|x a IH]; intros b [c Hc]; cbn; [reflexivity|].
+  subst b. cbn. rewrite N.eqb_refl. cbn. apply IH. now exists c.
+Qed.
+
+(* The code before commit 71bc8cf (rp_fixed = false), maximum batch size 2, time-out armed, 4 buffer slots, identity fetch.
+   (i) the time-out flusher takes batch [1] and is overtaken between Flush and Reserve by the adder's batch [2;3]. *)
+Definition old_params : rparams := mkRP (mkBP 2 true) 4 false.
+Definition old_script : list (aop N) := [AddOp 1%N; AddOp 2%N; AddOp 3%N].
+Definition old_swap_schedule : list action :=
+  [AAdder; AAdder; ATimerFire; ATimeout; ATimeout;                 (* add 1; timer; time-out flusher: Flush -> [1], at the hook point *)
+   AAdder; AAdder; AAdder; AAdder; AAdder; AAdder; AAdder; AAdder; AAdder;  (* add 2; add 3; full: Flush -> [2;3]; Reserve -> seq 0; go *)
+   ATimeout; ATimeout; ATimeout; ATimeout;                          (* time-out flusher: Reserve -> seq 1; go *)
+   AComplete 0; ADrain 0].                                          (* the fetch of [2;3] completes: emitted first *)
+
+Lemma old_code_swaps : let s := run (fun l : list N => l) old_params old_swap_schedule (r_init old_script) in
+  flushed s = [[1%N]; [2%N; 3%N]] /\ out s = [2%N; 3%N] /\
+  is_prefix_of N.eqb (out s) (concat (map (fun l => l) (flushed s))) = false.
+Proof. vm_compute. repeat split. Qed.
+
+(* (ii) both flushers read the same nextSeqNum: two batches get number 0, one result overwrites the other in the map and
+   the fetcher comes to rest having emitted [1] only: items 2 and 3 are lost. *)
+Definition old_dup_schedule : list action :=
+  [AAdder; AAdder; ATimerFire; ATimeout; ATimeout; ATimeout; ATimeout;     (* time-out flusher: Flush -> [1]; Reserve; seq := 0 *)
+   AAdder; AAdder; AAdder; AAdder; AAdder; AAdder; AAdder; AAdder; AAdder;  (* adder: Flush -> [2;3]; Reserve; seq := 0; nextSeqNum = 1; go *)
+   ATimeout; ATimeout;                                              (* time-out flusher: nextSeqNum = 2; go with seq 0 *)
+   AComplete 0; AComplete 1; ADrain 0; ADrain 0].
+
+Lemma old_code_loses : let s := run (fun l : list N => l) old_params old_dup_schedule (r_init old_script) in
+  quiescent s = true /\ added s = [1%N; 2%N; 3%N] /\ batch (bt s) = [] /\ out s = [1%N].
+Proof. vm_compute. repeat split. Qed.
